@@ -20,7 +20,7 @@ from vlib import core
 META = {
     "harness_bins": ["nkeval"],
     "extract": "C08.v",
-    "technique": "Coq proof on a mechanism-shaped model of pending contracts (arrays = (elements, pending_contracts), fields with pending contracts, primitives building closures exactly where operation.rs does): per-primitive pending_tracked lemmas + pipeline composition; a step-indexed logical relation between two runs that differ at one marked component and in how/with which labels the obligations are stored gives, for every pipeline of the 51 supported observers and every fuel, laziness (bottom_insensitive), blames-iff-reached and annotated-run = unannotated-run when not reached; refutation lemmas for two deliberately broken primitives and for the blame label after ArrayConcat. The model is tied to nickel by differential runs of generated `observe (v | T)` programs (extracted model vs nkeval, annotated and unannotated) with an independent reach-table oracle on the implementation",
+    "technique": "Coq proof on a mechanism-shaped model of pending contracts (arrays = (elements, pending_contracts), fields with pending contracts, primitives building closures exactly where operation.rs does): per-primitive pending_tracked lemmas + pipeline composition; a step-indexed logical relation between two runs that differ at one marked component and in how/with which labels the obligations are stored gives, for every pipeline of the 54 supported observers and every fuel, laziness (bottom_insensitive), blames-iff-reached and annotated-run = unannotated-run when not reached; refutation lemmas for two deliberately broken primitives and for the blame label after ArrayConcat. The model is tied to nickel by differential runs of generated `observe (v | T)` programs (extracted model vs nkeval, annotated and unannotated) with an independent reach-table oracle on the implementation",
     "level_text": "Theorems (coq/Props/C08.v, 30 statements, closed under the global context) quantify over every container literal, position, annotation of the stated families, every pipeline (any length and nesting) of the supported observers, every fuel: (T0) each primitive delivers every component under its obligations and this composes along pipelines; (T0) a violating component is blamed iff the observation marker put in its place in the *unannotated* run comes out, otherwise the annotated run equals the unannotated one; (T0) an unreached component can be replaced by anything, e.g. a failing one, without changing the outcome; (T1) $func wraps every call; the closed index-arithmetic reach table for single observers agrees with the marker semantics. Outcomes are compared up to the polarity of a blame (the faithful model refutes the exact-label statement: C08_concat_label_refuted, reproduced on nickel as a known finding). The model is hand-written from operation.rs / record.rs / merge.rs / internals.ncl / std.ncl; the tie is the correspondence run (same generated programs on the extracted model and on nickel built from /repo) plus the direct oracle (Python reach table; annotated vs unannotated run).",
     "level_note": "Trusted: Coq kernel; extraction (ExtrOcamlBasic, ExtrOcamlNativeString); the hand-written model's reading of the Rust/Nickel sources; the generator, Nickel printer and Python reach table. Partial: record merge (`&`) is modelled and generated but outside the theorems (a merged field is `(x & y) | contracts`, the merge inspects x before the check); the blames-iff-reached theorems need the annotation to check every component against Number with the listed names = the record's fields (wf_case), a record type / open record contract that reorders the fields changes the order in which `==` visits them (covered by the correspondence only); function containers have their own theorems (func_wraps_call, func_domain_blames_iff_forced). Not modelled: thunk sharing/memoisation, environments, labels other than polarity, contract deduplication (push_dedup modelled as push), optional/undefined fields, the sealing contracts attached by the stdlib's polymorphic static types (C11), sort/generate/partition, array merge, non-integer numbers.",
 }
@@ -179,6 +179,14 @@ def nk_body(o, v):
         return "(%s == %s)" % (nk_lit(o[1]), v)
     if k == "ctr":
         return "(%s | %s)" % (v, nk_ctr(o[1]))
+    if k in ("eq2", "concat2", "merge2", "elemof"):
+        # the argument is bound once and used twice: both uses share the same value
+        _ctr[0] += 1
+        w = "w%d" % _ctr[0]
+        if k == "elemof":
+            return "(let %s = %s in std.array.elem (%s) %s)" % (w, v, nk_body(o[1], w), w)
+        op = {"eq2": "==", "concat2": "@", "merge2": "&"}[k]
+        return "(let %s = %s in ((%s) %s (%s)))" % (w, v, nk_body(o[1], w), op, nk_body(o[2], w))
     if k == "access":
         return "(%s).%s" % (v, o[1][1])
     if k == "get":
@@ -410,7 +418,7 @@ def py_merge(a, b):
     return x
 
 
-MERGE_OBS = ("merger", "mergel")
+MERGE_OBS = ("merger", "mergel", "merge2")
 
 
 def py_obs(o, t):
@@ -495,6 +503,20 @@ def py_obs(o, t):
         return py_merge(th_val(py_lit(o[1])), t)
     if k == "ctr":
         return t.get()
+    if k == "eq2":
+        return py_eq(Th(lambda: py_obs(o[1], t)), Th(lambda: py_obs(o[2], t)))
+    if k == "merge2":
+        return py_merge(Th(lambda: py_obs(o[1], t)), Th(lambda: py_obs(o[2], t)))
+    if k == "concat2":
+        a = py_obs(o[1], t); need(isinstance(a, list)); b = py_obs(o[2], t); need(isinstance(b, list))
+        return a + b
+    if k == "elemof":
+        v = t.get(); need(isinstance(v, list))
+        target = Th(lambda: py_obs(o[1], t))
+        for e in v:
+            if py_eq(e, target):
+                return True
+        return False
     if k == "call":
         f = t.get(); need(callable(f)); return f(py_atom(o[1], o[1] == ("probe",)))
     if k == "probe":
@@ -652,6 +674,26 @@ def step_from(rng, ty, shape):
     Types: arrn (array of numbers), arr2, arrs (strings), arrb, arrrec, rec, num, bool, str, fun."""
     ln = shape.get("len", 2)
     idx = lambda: rng.range(0, max(ln - 1, 0)) if not rng.chance(1, 12) else ln + rng.range(0, 1)
+    if ty in ("arrn", "arr2", "rec") and rng.chance(1, 9):
+        # the (shared) value is used twice: compared / concatenated / merged with itself or with
+        # something derived from itself
+        same = lambda: rng.choice(["id", "id", "id", "seq"])
+        if ty == "rec":
+            names = shape["names"]
+            k = rng.below(10)
+            if k < 6:
+                return ("eq2", same(), rng.choice(["id", "id", "seq", "freeze", ("recmap", "snd"), ("mapvalues", "id")])), "bool", {}
+            if k < 8:
+                return ("merge2", "id", rng.choice(["id", "freeze"])), "rec", shape
+            return ("eq2", ("access", s(rng.choice(names) if names else "zz")), ("get", s(rng.choice(names) if names else "zz"))), "bool", {}
+        k = rng.below(10)
+        if k < 5:
+            other = ["id", "id", "seq", ("map", "id"), ("slicep", 0, ln), ("comp", "reverse", "reverse")]
+            return ("eq2", same(), rng.choice(other)), "bool", {}
+        if k < 7:
+            return ("concat2", rng.choice(["id", "reverse", ("map", "id")]), rng.choice(["id", "id", "reverse"])), ty, dict(shape, len=2 * ln)
+        sel = rng.choice(["first", "last", ("atp", rng.range(0, max(ln - 1, 0)))])
+        return ("elemof", sel), "bool", {}
     if ty in ("arrn", "arrs", "arrb"):
         c = rng.below(100)
         if c < 16:
@@ -855,12 +897,12 @@ def gen_case(rng):
 
 def strip_ctr(o):
     """in the function-domain entry the pipeline carries no foreign annotation (see the comment on
-    contract_eq in run()): re-annotations and non-shared literal annotations are dropped"""
+    contract_eq in run()): re-annotations are dropped"""
     if isinstance(o, tuple):
         if o[0] == "ctr":
             return "id"
-        if o[0] == "comp":
-            return ("comp", strip_ctr(o[1]), strip_ctr(o[2]))
+        if o[0] in ("comp", "eq2", "concat2", "merge2", "elemof", "map", "filter", "any", "all", "mapvalues"):
+            return (o[0],) + tuple(strip_ctr(x) for x in o[1:])
     return o
 
 
@@ -1036,8 +1078,10 @@ def flat_obs(o):
         return [o]
     if o[0] == "comp":
         return flat_obs(o[1]) + flat_obs(o[2])
-    if o[0] in ("map", "filter", "any", "all", "mapvalues"):
+    if o[0] in ("map", "filter", "any", "all", "mapvalues", "elemof"):
         return [o[0]] + [o[0] + ">" + x for x in flat_obs(o[1])]
+    if o[0] in ("eq2", "concat2", "merge2"):
+        return [o[0]] + [o[0] + ">" + x for x in flat_obs(o[1]) + flat_obs(o[2])]
     return [o[0]]
 
 
@@ -1075,7 +1119,7 @@ def run(ck):
                            "(Array Number, Array (Array Number), {_ : Number}, {_ | Number}, {a : Number,..}, {a | Number, ..} open/closed, "
                            "Number -> Number) written inline or bound once and shared with the literals of the pipeline (50%); entry "
                            "`(v | T)` or, for 1/6 of the arrays, through the domain of a function contract; observer pipeline of 1-3 "
-                           "type-directed stages out of 56 observers (primitives, stdlib combinators, compiled patterns, ==, &, "
+                           "type-directed stages out of 60 observers (incl. observers that use the shared container twice: x == x, x @ x, x & x, elem (first x) x) (primitives, stdlib combinators, compiled patterns, ==, &, "
                            "serialize/deserialize, deep_seq), ~7% deliberately out of bounds / missing field; each program is run "
                            "annotated and unannotated on nickel, and on the extracted model; non-trivial = the special component "
                            "violates or fails; distinct by exact text")
